@@ -137,6 +137,31 @@ reg('C18', 'E2',
     'Trusted: reference rate equations (C01/C03); numerical differentiation of the reference for the analytic value and the bound. '
     'Alphabets stand for the open domains.', '4 C18')
 
+reg('C12', 'E2',
+    'bounded-exhaustive enumeration of a model family through the real SBML writer and reader, compared behaviourally',
+    'Every model of the family (each propensity type x numeric/named parameters x reactant/product sequences x delay family x delayed side '
+    'lists; 18 general rates; all rule sets of <= 2 rules x 5 frequency spellings; ordered reaction triples over names whose sort order '
+    'differs from the declaration order) is written in deterministic and stochastic form and read back; species, parameters, both '
+    'stoichiometric matrices, every rate form at 6 states (H2), delay class and scripted delay draw, rule behaviour at the firing conditions '
+    'and write-twice identity are compared.',
+    'Trusted: hook H2/H1 wrappers; rules are compared through their effect, not their text. ODE rules are outside the property.', '4 C12')
+reg('C13', 'E2',
+    'bounded-exhaustive enumeration of SBML documents generated with libsbml only, imported by the real code, vs the document semantics',
+    'Documents built through libsbml calls (kinetic-law operator menu incl. nested powers in both associations x stoichiometries 1..3 x '
+    'modifier; amount/concentration combinations; every ordered selection of reactions with shadowing / colliding / private local '
+    'parameters; every sequence of <= 3 rules over assignment/rate x species/parameter plus a mixed menu) are imported; the imported '
+    'model\'s derivative after its repeated rules must equal stoichiometry x kinetic law + rate rules as evaluated from the document\'s '
+    'ASTs with local scoping, at 6 states, together with initial values, parameter values and the imported rule list.',
+    'Trusted: libsbml and vf/ref/sbml_eval.py as the document semantics. Documents that bioscrape refuses are counted, not reported.', '4 C13')
+reg('C14', 'E2',
+    'bounded-exhaustive enumeration of models through the real SBML writer; kinetic laws re-read with libsbml and evaluated as plain SBML',
+    'Every single-reaction model of the family is exported (deterministic and stochastic); with libsbml alone every identifier of every '
+    'kinetic law must resolve inside the document and the law, evaluated as SBML mathematics at 8 states, must equal the model\'s own '
+    'rate (stochastic form via H2); stoichiometry attributes must equal multiplicities. Six classes of failing input are listed as open '
+    'known findings (Hill families: frozen tests pin the defective text; Heaviside / time symbol: export and import must change together).',
+    'Trusted: libsbml reader, vf/ref/sbml_eval.py. Known findings are matched by exact class (family, export kind, failing identifier / '
+    'recognised defective form); any other mismatch of the same family is still a violation.', '4 C14')
+
 def hook_commits():
     try:
         out = subprocess.run(['git', '-C', '/repo', 'log', '--format=%h %s'], stdout=subprocess.PIPE).stdout.decode()
